@@ -120,9 +120,9 @@ type child struct {
 	ym   *yieldMon
 	cm   *copyMon
 
-	active   atomic.Int64
-	waitMu   sync.Mutex
-	waitingQ map[int]*driver.CommandQueue
+	active     atomic.Int64
+	waitMu     sync.Mutex
+	waitingQ   map[int]*driver.CommandQueue
 	blockingOp map[int]string
 
 	mu       sync.Mutex
@@ -134,6 +134,7 @@ type child struct {
 	layouts  map[int]any
 	nviol    int
 	copyOps  int64
+	evals    int
 	sampled  bool
 	nextCtx  int
 	allCtx   []*ctxModel
@@ -162,6 +163,9 @@ func (c *child) flush() {
 		c.rec.Count(k, c.cnt[k])
 	}
 	c.cnt = map[string]int64{}
+	for ; c.evals > 0; c.evals-- {
+		c.rec.Eval() // one evaluation = one generated copy judged against the shadow
+	}
 	for s, m := range c.dist {
 		for k := range m {
 			c.rec.Distinct(s, k)
@@ -445,6 +449,10 @@ func (c *child) buildCtx(ls layoutSpec, r *vlib.PRNG, parent *ctxModel) *ctxMode
 		}
 	}
 	m.shadow = make([]byte, off)
+	m.good = make([]int32, off)
+	for i := range m.good {
+		m.good[i] = -1
+	}
 	pt := d.VerifPageTable()
 	for pg := 0; pg < off/pageSize; pg++ {
 		page, ok := pt.Find(m.pid, m.base+uint64(pg*pageSize))
@@ -495,6 +503,9 @@ func (th *thread) noteCopy(m *ctxModel, dir string, o opRec, t elemType, cl rang
 	c.count("bytes_"+dir, int64(o.N))
 	if purpose != "verify" && purpose != "init" {
 		c.count("generated_copy_ops|"+c.path, 1)
+		c.mu.Lock()
+		c.evals++
+		c.mu.Unlock()
 		c.count("copies_by_type|"+t.Name, 1)
 		cs := cl.String()
 		c.count("copies_by_class|"+cs[:strings.IndexByte(cs, '/')], 1)
@@ -688,6 +699,10 @@ func (th *thread) drainAll() {
 // check compares a finished D2H with the shadow captured at issue time.
 func (th *thread) check(m *ctxModel, pd *pendingRead) {
 	c := th.c
+	if m.broken {
+		c.count("d2h_results_skipped_after_violation", 1)
+		return
+	}
 	got := pd.bytesOf()
 	c.count("d2h_results_compared", 1)
 	c.count("d2h_bytes_compared", int64(len(got)))
@@ -699,6 +714,10 @@ func (th *thread) check(m *ctxModel, pd *pendingRead) {
 		}
 	}
 	if bytes.Equal(got, pd.want) {
+		g := m.good[pd.op.Off : pd.op.Off+pd.op.N]
+		for j := range g {
+			g[j] = int32(pd.op.Idx)
+		}
 		return
 	}
 	i := 0
@@ -724,9 +743,18 @@ func (th *thread) check(m *ctxModel, pd *pendingRead) {
 	case got[i] == 0xEE && nDiff > 0 && allEE(got, pd.want):
 		symptom = "d2h-destination-not-filled"
 		culprit = pd.op.Class
-	case w != nil && lw != nil && w.Idx != lw.Idx && !(o >= lw.Off && o < lw.Off+lw.N):
-		symptom = "byte-outside-last-written-range-changed"
-		culprit = lw.Kind + ":" + lw.Class
+	case w != nil && int(m.good[o]) > w.Idx:
+		// the byte was read back correctly after its last legitimate write
+		// and differs now: something wrote outside its range
+		symptom = "byte-outside-written-ranges-changed"
+		culprit = "unknown"
+		for k := min(pd.op.Idx, len(m.ops)) - 1; k > int(m.good[o]); k-- {
+			if x := m.ops[k]; x.Kind == "h2d" || x.Kind == "kernel" {
+				culprit = x.Kind + ":" + x.Class
+				lw = &m.ops[k]
+				break
+			}
+		}
 	case w != nil && w.Kind == "kernel":
 		symptom = "kernel-write-not-observed"
 		if !stale {
@@ -751,6 +779,34 @@ func (th *thread) check(m *ctxModel, pd *pendingRead) {
 			culprit = "memRangeOverlap-misses-strict-containment"
 		}
 	}
+	// Reader or device? Re-read the first differing byte with a one-byte
+	// blocking copy (no chunking, nothing to split): if that agrees with the
+	// shadow, the device holds the right byte and the D2H under judgement
+	// returned wrong data.
+	probe := "not-probed"
+	if !m.conflict(noForce, o, 1) && symptom != "stale-cache-vs-copy" {
+		one := make([]byte, 1)
+		th.blockingCall("d2h", func() { c.d.MemCopyD2H(m.ctx, one, m.ptr(o)) })
+		if c.path == "dma" {
+			c.mu.Lock()
+			c.issued = append(c.issued, &issuedCopy{Desc: "probe", Chunks: m.chunks(o, 1)})
+			c.mu.Unlock()
+		}
+		if one[0] == pd.want[i] {
+			probe = "device-byte-correct"
+			if w != nil && w.Kind == "kernel" && stale {
+				// the copy read memory before the kernel's data was written back
+				symptom = "kernel-write-not-observed"
+				culprit = "read-overtook-write-back"
+			} else {
+				symptom = "d2h-returned-wrong-bytes"
+				culprit = pd.op.Class
+			}
+		} else {
+			probe = fmt.Sprintf("device-byte-0x%02x", one[0])
+		}
+	}
+	m.broken = true
 	key := fmt.Sprintf("C11|%s|%s|%s", c.path, symptom, strings.Split(culprit, "/")[0])
 	var wstr, lwstr string
 	if w != nil {
@@ -762,7 +818,7 @@ func (th *thread) check(m *ctxModel, pd *pendingRead) {
 	c.violation(key,
 		fmt.Sprintf("%s of ctx%d arena [%d,+%d) as %s: byte %d (arena offset %d, page %d of the arena, device %d) is 0x%02x, shadow says 0x%02x; %d of %d bytes differ; last writer of that byte: %s; most recent write: %s",
 			pd.purpose, m.id, pd.op.Off, pd.op.N, pd.op.Type, i, o, o/pageSize, m.pageDv[o/pageSize], got[i], pd.want[i], nDiff, len(got), wstr, lwstr),
-		map[string]any{"reader": pd.op.String(), "first_diff_arena_offset": o, "got_equals_value_before_last_write": stale,
+		map[string]any{"reader": pd.op.String(), "first_diff_arena_offset": o, "one_byte_probe": probe, "got_equals_value_before_last_write": stale,
 			"layout": m.bufs, "page_paddr": hexes(m.pagePA), "recent_ops": m.tailOps(25), "queue_gpus": m.qGPU})
 }
 
@@ -947,8 +1003,25 @@ func (th *thread) step() {
 			return
 		}
 		th.kernel(m, off, nE, kern.Op(r.Intn(3)), 1+2*uint32(r.Intn(1000)), false)
-		// a D2H of (part of) the kernel's range right behind it, same or other queue
-		if r.Chance(2, 3) {
+		// an H2D into the kernel's (dirty) range right behind it, then a D2H
+		// of the surrounding bytes: the copy must neither be undone by a
+		// later write-back nor hide the kernel's other results
+		if r.Chance(1, 3) {
+			bt := typeByName("[]byte")
+			s := off + r.Intn(4*nE)
+			n := 1 + r.Intn(min(300, off+4*nE-s))
+			if r.Chance(1, 2) {
+				th.drainAll()
+			}
+			th.h2d(m, s, n, bt, r.Chance(1, 4), "h2d")
+			th.nOps++
+			if r.Chance(1, 2) {
+				cst := 1 + 2*uint32(r.Intn(1000))
+				th.kernel(m, off, nE, kern.Op(r.Intn(3)), cst, false)
+			}
+			th.d2h(m, off, 4*nE, bt, r.Chance(1, 4), "d2h", -1)
+			th.nOps++
+		} else if r.Chance(2, 3) {
 			t := []elemType{typeByName("[]uint32"), typeByName("[]byte"), typeByName("[]float32"), typeByName("[]uint64")}[r.Intn(4)]
 			s := off + 4*r.Intn(nE)
 			e := s + 4 + r.Intn(4*nE-(s-off)-3)
@@ -976,8 +1049,30 @@ func (th *thread) step() {
 // ---------------------------------------------------------------------------
 // scenarios
 
+// quiesce waits until the engine goroutine has handled every event and left
+// Engine.Run (a logical condition: the driver logs a command's completion
+// after it has dequeued it, i.e. after a drainer may already have returned).
+func (c *child) quiesce() bool {
+	for i := 0; i < 200000; i++ {
+		running, kicked := c.d.VerifEngineState()
+		if !running && !kicked {
+			return true
+		}
+		if i < 100 {
+			runtime.Gosched()
+		} else {
+			time.Sleep(100 * time.Microsecond)
+		}
+	}
+	return false
+}
+
 func (c *child) analyse() {
 	if c.cm == nil {
+		return
+	}
+	if !c.quiesce() {
+		c.rec.Inconclusive("engine did not go idle after all queues were drained; completion trace not analysed")
 		return
 	}
 	c.mu.Lock()
@@ -1050,7 +1145,6 @@ func (c *child) runScenario(si int, r *vlib.PRNG, budget int) int {
 		}
 	}
 	c.count("scenarios|"+c.path, 1)
-	c.rec.Eval()
 	c.flush()
 	return total
 }
@@ -1106,7 +1200,6 @@ func childMain() {
 	if strings.HasPrefix(cfg.Kind, "canon-") {
 		c.scen = cfg.Kind
 		c.canonical(cfg.Kind)
-		c.rec.Eval()
 	} else {
 		done := 0
 		for si := 0; done < cfg.Ops; si++ {
